@@ -31,13 +31,7 @@ def h_history(V, steps=4, spec=0, hosts=2, responses=('rows', 'read_timeout', 's
         # general pre-emption: at any lock acquire/release of any driver function, while the running thread holds no
         # lock, another thread performs one of the enabled events (a response, a timer, a queued task, a socket error)
         from harness import kit
-        pre = kit.Preempter(V, None, lambda *a: run.step('pre%d' % pre.used), only_unlocked=True, enabled=lambda: bool(run.enabled()))
-        rf._callback_lock = kit.SchedLock('callback_lock', pre)
-        for c in run.world.w.conns:
-            c.lock = kit.SchedLock('connection.lock', pre)
-        for pool in run.world.pools.values():
-            pool._lock = kit.SchedLock('pool._lock', pre)
-            pool._stream_available_condition = kit.VirtualCondition(pool._lock)
+        rfhist.arm_race(V, run)
     rf.send_request()
     fired_timeout = [False]
     for i in range(steps):
